@@ -33,6 +33,7 @@ def isLeaf : RustTy → Bool
 inductive Meta (rs : List RStruct) : RustTy → Nat × Nat → Prop
   | leaf {r : RustTy} {p : Nat × Nat} : isLeaf r = true → alignSizeOf (fun _ => none) r = some p → Meta rs r p
   | array {t : RustTy} {n a sz : Nat} : Meta rs t (a, sz) → Meta rs (.array t n) (a, n * roundUp a sz)
+  | vec {t : RustTy} {a sz : Nat} : Meta rs t (a, sz) → Meta rs (.vec t) (a, roundUp a sz)
   | named {name : String} {s : RStruct} {metas : List (Nat × Nat)} :
       RustStatic.findStruct rs name = some s →
       metas.length = s.fields.length →
@@ -88,6 +89,10 @@ def natural (m : Module) : Nat → Ty → Bool
   | fuel + 1, ty =>
     match ty.inner with
     | .array base (.const _) _ =>
+      (match m.types[base]? with | some bt => natural m fuel bt | none => false)
+    -- a runtime-sized array: legal only as the last member of a top-level struct (WGSL), which is also the only place
+    -- the generator accepts it (`rts-not-last`, `rts-in-type` panics)
+    | .array base .dynamic _ =>
       (match m.types[base]? with | some bt => natural m fuel bt | none => false)
     | .struct ms span =>
       (ms.all fun mem => !isBuiltinMember mem &&
@@ -168,7 +173,9 @@ theorem aligns_of_members (m : Module) (fuel : Nat) :
 theorem fields_meta {rs : List RStruct} {m : Module} {o : Options} {fuel : Nat} (hrepr : o.repr = .glam)
     (P : Nat → Prop)
     (IH : ∀ h ty r, m.types[h]? = some ty → P h → natural m fuel ty = true →
-        rustType m .glam (typeFuel m) ty = .ok r → ∃ p, WgslLayout.alignSize m fuel ty = some p ∧ Meta rs r p) :
+        rustType m .glam (typeFuel m) ty = .ok r → ∃ p, WgslLayout.alignSize m fuel ty = some p ∧ Meta rs r p)
+    (IHd : ∀ h base bt e, P h → base ∈ typeSucc m h → m.types[base]? = some bt → natural m (fuel - 1) bt = true →
+        rustType m .glam (typeFuel m) bt = .ok e → ∃ p, WgslLayout.alignSize m (fuel - 1) bt = some p ∧ Meta rs e p) :
     ∀ (ms : List Member) (fs : List RField), FieldsFrom m o ms fs →
       (∀ mem ∈ ms, P mem.ty ∧ ∃ mt, m.types[mem.ty]? = some mt ∧ natural m fuel mt = true) →
       fs.length = ms.length ∧
@@ -186,25 +193,19 @@ theorem fields_meta {rs : List RStruct} {m : Module} {o : Options} {fuel : Nat} 
     intro fs hf hms
     cases fs with
     | nil => exact hf.elim
-    | cons f fs =>
+    | cons f fs' =>
       obtain ⟨hfm, hrest⟩ := hf
-      obtain ⟨hl, hp, hmeta⟩ := ih fs hrest (fun x hx => hms x (List.mem_cons_of_mem _ hx))
+      obtain ⟨hl, hp, hmeta⟩ := ih fs' hrest (fun x hx => hms x (List.mem_cons_of_mem _ hx))
       obtain ⟨hP, mt, hmt, hnat⟩ := hms mem List.mem_cons_self
       obtain ⟨ty, hty, _, hcase⟩ := hfm
       rw [hmt] at hty
       cases hty
-      -- a runtime-sized array is not in the domain
-      have hnd : ∀ base stride, mt.inner ≠ .array base .dynamic stride := by
-        intro base stride hi
-        cases fuel with
-        | zero => simp [natural] at hnat
-        | succ k => simp [natural, hi, glamRepresentable] at hnat
-      rcases hcase with ⟨base, stride, _, _, hi, _⟩ | ⟨_, hrt, _⟩
-      · exact absurd hi (hnd base stride)
-      · rw [hrepr] at hrt
-        obtain ⟨p, hpa, hpm⟩ := IH mem.ty mt f.ty hmt hP hnat hrt
-        have hb : (m.types[mem.ty]?).bind (WgslLayout.alignSize m fuel) = some p := by
-          rw [hmt]; exact hpa
+      have hcons : ∀ p, (m.types[mem.ty]?).bind (WgslLayout.alignSize m fuel) = some p → Meta rs f.ty p →
+          fs'.length + 1 = rest.length + 1 ∧
+          (∀ x ∈ mem :: rest, ∃ p, (m.types[x.ty]?).bind (WgslLayout.alignSize m fuel) = some p) ∧
+          (∀ i (h1 : i < (f :: fs').length) (h2 : i < (memberMetas m fuel (mem :: rest)).length),
+            Meta rs (f :: fs')[i].ty (memberMetas m fuel (mem :: rest))[i]) := by
+        intro p hb hpm
         refine ⟨by simp [hl], ?_, ?_⟩
         · intro x hx
           rcases List.mem_cons.mp hx with rfl | hx
@@ -218,6 +219,31 @@ theorem fields_meta {rs : List RStruct} {m : Module} {o : Options} {fuel : Nat} 
           | succ j =>
             simp only [memberMetas, List.map_cons, List.getElem_cons_succ]
             exact hmeta j (by simpa using h1) (by simpa [memberMetas] using h2)
+      rcases hcase with ⟨base, stride, bt, e, hi, hbt, hre, hfty, _⟩ | ⟨_, hrt, _⟩
+      · -- the runtime-sized last member: `Vec<element>`, metadata with one element
+        rw [hrepr] at hre
+        cases fuel with
+        | zero => simp [natural] at hnat
+        | succ k =>
+          have hnb : natural m k bt = true := by
+            unfold natural at hnat
+            simp only [hi, hbt] at hnat
+            exact hnat
+          have hsucc : base ∈ typeSucc m mem.ty := by simp [typeSucc, hmt, hi]
+          obtain ⟨⟨a, sz⟩, hpa, hpm⟩ := IHd mem.ty base bt e hP hsucc hbt hnb hre
+          have hb : (m.types[mem.ty]?).bind (WgslLayout.alignSize m (k + 1)) = some (a, roundUp a sz) := by
+            rw [hmt]
+            simp only [Option.bind_some]
+            have hpa' : WgslLayout.alignSize m k bt = some (a, sz) := hpa
+            unfold WgslLayout.alignSize
+            simp only [hi, hbt, hpa']
+          have hm : Meta rs f.ty (a, roundUp a sz) := by rw [hfty]; exact Meta.vec hpm
+          exact hcons _ hb hm
+      · rw [hrepr] at hrt
+        obtain ⟨p, hpa, hpm⟩ := IH mem.ty mt f.ty hmt hP hnat hrt
+        have hb : (m.types[mem.ty]?).bind (WgslLayout.alignSize m fuel) = some p := by
+          rw [hmt]; exact hpa
+        exact hcons p hb hpm
 
 theorem tyReach_snoc {m : Module} {a b c : Nat} (h : TyReach m a b) (hs : c ∈ typeSucc m b) : TyReach m a c :=
   TyReach.trans h (TyReach.step hs (TyReach.refl c))
@@ -230,9 +256,11 @@ theorem meta_of_natural {m : Module} {o : Options} {rs : List RStruct} {root : N
     ∀ fuel h ty fr r, m.types[h]? = some ty → TyReach m root h → natural m fuel ty = true →
       rustType m .glam fr ty = .ok r → ∃ p, WgslLayout.alignSize m fuel ty = some p ∧ Meta rs r p := by
   intro fuel
-  induction fuel with
+  induction fuel using Nat.strongRecOn with
+  | _ fuel ih =>
+  cases fuel with
   | zero => intro h ty fr r _ _ hn; simp [natural] at hn
-  | succ fuel ih =>
+  | succ fuel =>
     intro h ty fr r hty hreach hn hr
     cases fr with
     | zero => simp [rustType] at hr
@@ -252,11 +280,11 @@ theorem meta_of_natural {m : Module} {o : Options} {rs : List RStruct} {root : N
             simp only [hi, hb] at hr
             obtain ⟨e, he, hr⟩ := Except.bind_ok hr
             cases hr
-            obtain ⟨⟨a, sz⟩, hpa, hpm⟩ := ih base bt fr e hb (tyReach_snoc hreach hsucc) hn he
+            obtain ⟨⟨a, sz⟩, hpa, hpm⟩ := ih fuel (by omega) base bt fr e hb (tyReach_snoc hreach hsucc) hn he
             refine ⟨(a, n * roundUp a sz), ?_, Meta.array hpm⟩
             unfold WgslLayout.alignSize
             simp only [hi, hb, hpa]
-        | dynamic => simp [natural, hi, glamRepresentable] at hn
+        | dynamic => unfold rustType at hr; simp [hi] at hr
         | pending => simp [natural, hi, glamRepresentable] at hn
       case struct ms span =>
         unfold natural at hn
@@ -287,7 +315,9 @@ theorem meta_of_natural {m : Module} {o : Options} {rs : List RStruct} {root : N
             | none => rw [hmt] at this; cases this
             | some mt => rw [hmt] at this; exact ⟨mt, rfl, this⟩
           obtain ⟨hlen, hp, hmeta⟩ := fields_meta (rs := rs) hrepr (TyReach m root)
-            (fun h' ty' r' a b c d => ih h' ty' (typeFuel m) r' a b c d) ms s.fields hff hms
+            (fun h' ty' r' a b c d => ih fuel (by omega) h' ty' (typeFuel m) r' a b c d)
+            (fun h' base bt e hr' hs' hb' hn' he' =>
+              ih (fuel - 1) (by omega) base bt (typeFuel m) e hb' (tyReach_snoc hr' hs') hn' he') ms s.fields hff hms
           obtain ⟨hsome, hfold⟩ := aligns_of_members m fuel ms hp
           have hml : (memberMetas m fuel ms).length = s.fields.length := by simp [memberMetas, hlen]
           have hnamed := Meta.named (rs := rs) hfind hml hmeta
@@ -386,7 +416,9 @@ theorem C10_struct {m : Module} {o : Options} {src : String} {path : Option Stri
     | none => rw [hmt] at this; cases this
     | some mt => rw [hmt] at this; exact ⟨mt, rfl, this⟩
   obtain ⟨hlen, _, hmeta⟩ := fields_meta (rs := out.structs) hrepr (TyReach m g.ty)
-    (fun h' ty' r' a b c d => meta_of_natural hrepr hem fuel h' ty' (typeFuel m) r' a b c d) ms s.fields hff hms
+    (fun h' ty' r' a b c d => meta_of_natural hrepr hem fuel h' ty' (typeFuel m) r' a b c d)
+    (fun h' base bt e hr' hs' hb' hn' he' =>
+      meta_of_natural hrepr hem (fuel - 1) base bt (typeFuel m) e hb' (tyReach_snoc hr' hs') hn' he') ms s.fields hff hms
   exact ⟨s, hfind, hlen, hmeta, hoff, hspan, p, hpa, hpm⟩
 
 /-! ### The executable form (`Encase.structMeta`, evaluated by the correspondence check on real output) agrees -/
@@ -417,7 +449,16 @@ theorem alignSizeOf_sound (rs : List RStruct) (sm : String → Option (Nat × Na
   | named n => intro p h; exact hsm n p (by simpa [Encase.alignSizeOf] using h)
   | nalgebraV t n _ => intro p h; simp [Encase.alignSizeOf] at h
   | nalgebraM t r c _ => intro p h; simp [Encase.alignSizeOf] at h
-  | vec t _ => intro p h; simp [Encase.alignSizeOf] at h
+  | vec t ih =>
+    intro p h
+    unfold Encase.alignSizeOf at h
+    cases hq : Encase.alignSizeOf sm t with
+    | none => rw [hq] at h; cases h
+    | some q =>
+      rw [hq] at h
+      simp only [Option.map_some, Option.some.injEq] at h
+      subst h
+      exact Meta.vec (ih (q.1, q.2) hq)
   | option t _ => intro p h; simp [Encase.alignSizeOf] at h
   | unknown s => intro p h; simp [Encase.alignSizeOf] at h
 
@@ -458,11 +499,19 @@ theorem Meta.det {rs : List RStruct} {r : RustTy} {p q : Nat × Nat} (h1 : Meta 
     cases h2 with
     | leaf _ ha' => rw [ha] at ha'; exact Option.some.inj ha'
     | array _ => simp [isLeaf] at hl
+    | vec _ => simp [isLeaf] at hl
     | named _ _ _ => simp [isLeaf] at hl
   | array _ ih =>
     cases h2 with
     | leaf hl _ => simp [isLeaf] at hl
     | array h' =>
+      have := ih h'
+      injection this with ha hs
+      subst ha; subst hs; rfl
+  | vec _ ih =>
+    cases h2 with
+    | leaf hl _ => simp [isLeaf] at hl
+    | vec h' =>
       have := ih h'
       injection this with ha hs
       subst ha; subst hs; rfl
@@ -523,6 +572,108 @@ theorem C10_struct_exec_offsets {m : Module} {o : Options} {src : String} {path 
   simp only [heq]
   exact ⟨hoff, hspan⟩
 
+/-! ### Trailing runtime-sized arrays -/
+
+theorem fieldsFrom_last {m : Module} {o : Options} :
+    ∀ (ms : List Member) (fs : List RField) (lm : Member), FieldsFrom m o ms fs → ms.getLast? = some lm →
+      ∃ f, fs.getLast? = some f ∧ FieldFrom m o lm f := by
+  intro ms
+  induction ms with
+  | nil => intro fs lm _ h; simp at h
+  | cons mem rest ih =>
+    intro fs lm hf hl
+    cases fs with
+    | nil => exact hf.elim
+    | cons f fs' =>
+      obtain ⟨hfm, hrest⟩ := hf
+      cases rest with
+      | nil =>
+        cases fs' with
+        | nil =>
+          simp only [List.getLast?_singleton, Option.some.injEq] at hl
+          subst hl
+          exact ⟨f, by simp, hfm⟩
+        | cons g gs => exact hrest.elim
+      | cons r rs' =>
+        cases fs' with
+        | nil => exact hrest.elim
+        | cons g gs =>
+          have hl' : (r :: rs').getLast? = some lm := by simpa [List.getLast?_cons_cons] using hl
+          obtain ⟨f', hf', hff⟩ := ih (g :: gs) lm hrest hl'
+          exact ⟨f', by simpa [List.getLast?_cons_cons] using hf', hff⟩
+
+/-- **C10** (trailing runtime-sized array).  Under the hypotheses of `C10_struct`, when the last member of the struct is a
+runtime-sized array: the last field of the emitted item is `Vec<e>` carrying `#[size(runtime)]`; encase's (alignment, size) of
+the element type `e` is the WGSL (AlignOf, SizeOf) of the array's element type, so the element strides agree; the field sits
+at the member's WGSL offset (`C10_struct`); hence for EVERY number of elements `k` the byte length encase writes
+(`Encase.runtimeLen`) is the WGSL size of the struct with `k` elements (`WgslLayout.runtimeStructSize`). -/
+theorem C10_runtime {m : Module} {o : Options} {src : String} {path : Option String} {out : Out}
+    (ha : TypeArenaOk m) (hg : gen m o src path = .ok out) (hrepr : o.repr = .glam)
+    {g : Global} (hgm : g ∈ m.globals) {h : Nat} {ty : Ty} {ms : List Member} {span : Nat} {n : String}
+    (hreach : TyReach m g.ty h) (hty : m.types[h]? = some ty) (hi : ty.inner = .struct ms span) (hn : ty.name = some n)
+    {fuel : Nat} (hnat : natural m (fuel + 1) ty = true)
+    {lm : Member} {lt : Ty} {base stride : Nat}
+    (hlast : ms.getLast? = some lm) (hlt : m.types[lm.ty]? = some lt) (hli : lt.inner = .array base .dynamic stride) :
+    ∃ s f e a sz, RustStatic.findStruct out.structs n = some s ∧ s.fields.getLast? = some f ∧
+      f.ty = .vec e ∧ f.runtime = true ∧ Meta out.structs e (a, sz) ∧
+      (m.types[base]?).bind (WgslLayout.alignSize m (fuel - 1)) = some (a, sz) ∧
+      ∃ A, WgslLayout.alignSize m (fuel + 1) ty = some (A, span) ∧ Meta out.structs (.named n) (A, span) ∧
+        ∀ k, Encase.runtimeLen A lm.offset (roundUp a sz) k = WgslLayout.runtimeStructSize A lm.offset (roundUp a sz) k := by
+  have hem := emitted_of_gen ha hg hgm
+  obtain ⟨s, hfind, _, _, _, _, p, hpa, hpm⟩ := C10_struct ha hg hrepr hgm hreach hty hi hn hnat
+  have hn' := hnat
+  unfold natural at hn'
+  simp only [hi, Bool.and_eq_true, beq_iff_eq, List.all_eq_true] at hn'
+  obtain ⟨hall, _, _⟩ := hn'
+  obtain ⟨s', hfind', hfields⟩ := hem h ty ms span n hty hi hn hreach
+  rw [hfind] at hfind'
+  cases hfind'
+  have hnb : nonBuiltin ms = ms := by
+    unfold nonBuiltin
+    exact List.filter_eq_self.mpr fun mem hmem => (hall mem hmem).1
+  rw [hnb] at hfields
+  unfold structMembers at hfields
+  have hff := structMembersFrom_pos ms 0 s.fields hfields
+  obtain ⟨f, hfl, hfrom⟩ := fieldsFrom_last ms s.fields lm hff hlast
+  have hlm : lm ∈ ms := List.mem_of_getLast? hlast
+  obtain ⟨ty', hty', _, hcase⟩ := hfrom
+  rw [hlt] at hty'
+  cases hty'
+  have hlnat := (hall lm hlm).2
+  rw [hlt] at hlnat
+  simp only at hlnat
+  rcases hcase with ⟨base', stride', bt, e, hi', hbt, hre, hfty, hrt⟩ | ⟨hnd, _, _⟩
+  · rw [hli] at hi'
+    injection hi' with hb' _ _
+    subst hb'
+    rw [hrepr] at hre
+    cases fuel with
+    | zero => simp [natural] at hlnat
+    | succ k =>
+      have hnbt : natural m k bt = true := by
+        unfold natural at hlnat
+        simp only [hli, hbt] at hlnat
+        exact hlnat
+      have hs1 : lm.ty ∈ typeSucc m h := by
+        simp only [typeSucc, hty, hi]
+        exact List.mem_map_of_mem hlm
+      have hs2 : base ∈ typeSucc m lm.ty := by simp [typeSucc, hlt, hli]
+      obtain ⟨⟨a, sz⟩, hea, hem'⟩ := meta_of_natural hrepr hem k base bt (typeFuel m) e hbt
+        (tyReach_snoc (tyReach_snoc hreach hs1) hs2) hnbt hre
+      -- the struct's own (alignment, size): the size component is the recorded span
+      have hspan : p.2 = span := by
+        unfold WgslLayout.alignSize at hpa
+        simp only [hi] at hpa
+        split at hpa
+        · injection hpa with hpa; rw [← hpa]
+        · cases hpa
+      refine ⟨s, f, e, a, sz, hfind, hfl, hfty, hrt, hem', ?_, p.1, ?_, ?_, fun k => rfl⟩
+      · show (m.types[base]?).bind (WgslLayout.alignSize m k) = some (a, sz)
+        rw [hbt]; exact hea
+      · rw [hpa, ← hspan]
+      · rw [← hspan]; exact hpm
+  · exact absurd hli (hnd base stride)
+
 /-! ## Non-vacuity -/
 
 namespace Example
@@ -577,6 +728,33 @@ example : WgslLayout.alignSize (modl 48) 10 (outerTy 48) = some (16, 160) := by 
 example : Encase.structMeta emitted 4 "Mid" = some (16, 64) := by decide
 /-- too little fuel for the nesting depth: no answer (the theorem speaks about answers only) -/
 example : Encase.structMeta emitted 2 "Outer" = none := by decide
+
+/-- ```wgsl
+struct Buf { count: u32, items: array<Inner> }     // 0, 16; with one element 32 bytes
+@group(0) @binding(1) var<storage> b: Buf;
+``` -/
+def bufTy : Ty := ty (some "Buf") (.struct [⟨some "count", 10, none, 0⟩, ⟨some "items", 9, none, 16⟩] 32)
+
+def modlRt : Module :=
+  { (modl 48) with types := (modl 48).types ++
+      [ ty none (.array 2 .dynamic 16),            -- 9
+        ty none (.scalar ⟨.uint, 4⟩),              -- 10
+        bufTy ] }                                   -- 11
+
+example : natural modlRt 10 bufTy = true := by decide
+example : WgslLayout.alignSize modlRt 10 bufTy = some (16, 32) := by decide
+
+def emittedRt : List RStruct :=
+  emitted ++ [ { name := "Buf", reprC := false, derives := [], asserts := [],
+                 fields := [⟨"count", .prim "u32", false⟩, ⟨"items", .vec (.named "Inner"), true⟩] } ]
+
+example : structMembers modlRt { (default : Options) with repr := .glam }
+    [⟨some "count", 10, none, 0⟩, ⟨some "items", 9, none, 16⟩] =
+    .ok [⟨"count", .prim "u32", false⟩, ⟨"items", .vec (.named "Inner"), true⟩] := by rfl
+
+example : Encase.structMeta emittedRt 3 "Buf" = some (16, 32) := by decide
+/-- 0 and 1 elements: 32 bytes; 3 elements: 64 -/
+example : [0, 1, 3].map (Encase.runtimeLen 16 16 16) = [32, 32, 64] := by decide
 
 end Example
 
